@@ -142,6 +142,11 @@ package match
 //@   loop 1 invariant len(nbsss) == len(nfxas) && okbss(nbsss, root, own, mark) && (cap(nbsss) == 0 || fresh(nbsss)) && (cap(nfxas) == 0 || fresh(nfxas))
 //@   loop 1 invariant forall x int :: 0 <= x && x < len(nfxas) ==> nfxas[x] != nil && fresh(nfxas[x])
 //@   loop 1 invariant forall x int, y int :: 0 <= x && x < len(nbsss) && 0 <= y && y < len(nbsss[x]) ==> fresh(nbsss[x][y])
+// An array is a set: for every search branch the member pattern is tried
+// against EVERY still-unconsumed member, whatever order the map yields them in
+// (the search is left early only by an error).
+//@   loop 1 invariant[C02,C03] samemembers: forall j int :: (j in mm) <==> atloop(j in mm)
+//@   loop 0 invariant[C02,C03] alltried: rangeindex >= 0 ==> forall j int :: (j in fxas[rangeindex]) ==> seen(1)[j]
 
 //@ func (*Matcher).mapcatMatch returns res, err
 //@   safety C01
